@@ -739,6 +739,8 @@ class DtlsWorld(MediaBase):
             want[n] = "connected" if (self.expect_identity_ok(n) and common) else "failed"
         self.log.add("states", tuple(sorted(states.items())), tuple(sorted(want.items())))
         self.probes["verdict_%s_%s" % (want["A"], want["B"])] += 1
+        self.note_state("%s|%s|%s|early=%s|profiles=%d/%d" % (want["A"], want["B"], cfg["roles"], cfg.get("early"),
+                                                           len(cfg["profiles_A"]), len(cfg["profiles_B"])))
         for n in "AB":
             if states[n] != want[n]:
                 why = "fingerprints" if common else "no-common-srtp-profile"
